@@ -17,6 +17,9 @@ Driver handlers for C02.
   Round 3: an event may carry `amp` (an over-long line inserted, comment lines appended: `ampText` mirrors the
   harness), the session has a routes format (`fmt`) and may start through the real static/file backend (`via`: the
   first event is then a service update whatever it says — `Source.events`). `spec` additionally demands
+  Round 4: every step carries `served` — the answers of the REAL lookup closures of `main.go` (`newHTTPProxy(…).Lookup`,
+  `lookupHostFn`, `lookupHostMatcher`) in the child to probe requests, judged in the harness against the table that must
+  be active (class `request-served-from-other-table`): the property as a request sees it. `spec` additionally demands
   COMPLETENESS: whenever the real `NewTable` accepted a text, the number of definitions the real `Parse` made of it
   equals `commandLines text` counted here (class `accepted-text-incomplete`). `agree` additionally compares the
   `Register` calls of the loop (consecutive duplicates collapsed) with `registeredTrace` (model of `ParseAliases`).
@@ -124,6 +127,10 @@ def histStep (a : HistAcc) (step : Json) : HistAcc :=
   let b := objOr step "build"
   let active := (step.getObjVal? "active").toOption.getD Json.null
   let a := if has b "panic" then { a with panics := true, ok := false, bad := if a.bad.isEmpty then "newtable-panic" else a.bad } else a
+  -- round 4: the answers of main.go's lookup closures to the probe requests, judged by the harness against the table
+  -- that must be active (real NewTable of the last good text)
+  let a := if has (objOr step "served") "bad" then
+      { a with ok := false, bad := if a.bad.isEmpty then "request-served-from-other-table" else a.bad } else a
   match builtTable b with
   | some t =>
     let a := { a with cur := t, seenOk := true, nOk := a.nOk + 1, recovered := a.recovered || a.failAfterOk }
@@ -205,6 +212,8 @@ def custStep (a : CustAcc) (step : Json) : CustAcc :=
   let active := (step.getObjVal? "active").toOption.getD Json.null
   let a := if has d "null" then { a with nullSeen := true } else a
   let a := if has b "panic" then { a with ok := false, bad := if a.bad.isEmpty then "newtablecustom-panic" else a.bad } else a
+  let a := if has (objOr step "served") "bad" then
+      { a with ok := false, bad := if a.bad.isEmpty then "request-served-from-other-table" else a.bad } else a
   match (if has d "defs" then builtTable b else none) with
   | some t =>
     let a := { a with cur := t, nInstalled := a.nInstalled + 1 }
